@@ -156,4 +156,12 @@ def showGcsResp : Resp → String
   | .rewrite b o => s!"rewrite done size={o.content.length} " ++ showObj b o
   | .uploadId k => s!"uploadid {k}"
 
+/-- `gcs plant <bucket> <name> <content>`: a content file put into the file store's directory by
+    hand, without a sidecar (C09: such files are still served) — on the abstract store that is an
+    object with a fresh generation, metageneration 0 and empty metadata (`Emu.Gcs.File.absObj`). -/
+def plant (s : Store) (b n content : Bytes) : Store :=
+  let g := s.clock + 1
+  let os := (s.bucket? b).getD []
+  { s.setBucket b (os.put ⟨n, content, g, 0, {}⟩) with clock := g }
+
 end Emu.Driver
